@@ -7,6 +7,14 @@ ROOT = os.path.dirname(os.path.dirname(os.path.abspath(__file__)))
 
 # id -> (technique, level text, level note, design ref)
 CHECKS = {
+    "C03": ("differential run of the classic compiler against the Lean source semantics and against the modern cl21 build; Lean theorems for parameter path assignment (NodePath/optimiser theorems shared with C04)",
+            "Classic-dialect programs from the generator (defun, defun-inline with destructuring, defmacro templates, defconstant, if/list/qq, 1..40 parameters) are compiled by the real classic compiler, run by clvmr and compared with Lang.evalSrc (Lean); the same text with the cl21 sigil is compiled by the modern compiler and both builds must agree. Kernel-checked: the parameter-path assignment is correct for all patterns and argument values (shared with C01); the classic optimiser's soundness is C04's theorem set.",
+            "Differential and generator-bounded for the classic compiler's macro/com/opt machinery; Lean kernel for the path algebra; Lang.evalSrc trusted as the meaning.",
+            "DESIGN.md §4 C03"),
+    "C13": ("Lean 4 proof of path_to_function (sound and complete for every tree and hash function) + oracle run on real symbol tables",
+            "Proved for all CLVM trees and any hash function: the path path_to_function returns selects a subtree with the requested tree hash, and it returns one whenever such a subtree exists. The rest of the property is decided on the implementation: for generated programs x modern dialects x {unoptimised, CLI -O off/on}, every symbol entry whose key is the hash of code occurring in the emitted program must name a source function (or a compiler-synthesised one), record that function's argument list, and the extracted code run on (ENV . args) by clvmr must equal the source-level call evaluated by Lang.evalSrc; unoptimised builds must have an entry with code present for every reachable non-inline function.",
+            "Tree-hash injectivity is not assumed (the oracle compares behaviour, not hashes); symbol generation inside codegen is not modelled; classic symbol files are not covered yet.",
+            "DESIGN.md §4 C13"),
     "C02": ("differential run of every option set / dialect of the real compiler against each other and against the Lean source semantics; Lean theorems for the shared path algebra (pass theorems staged)",
             "For generated programs of every dialect: all builds that differ only in optimisation (CLI -O, compile_file optimize x frontend_opt x classic post-optimiser) and, within a value-semantics group, in dialect sigil are compiled by the real compiler and run by clvmr; every pair of value-returning builds must agree, each must equal Lang.evalSrc (Lean) whenever that returns, and switching -O / the post-optimiser on must not turn a compiling value-returning build into a failing one. Kernel-checked part: the argument-addressing algebra shared by all builds (C01 Layer A); the CLVM-level pass soundness theorems (double-apply, null, brief path, classic optimiser via C04) are staged in Props/C02.lean as they are completed. Known genuine defects are listed in known_findings.json.",
             "Differential, generator-bounded for the optimisers themselves (CSE, de-inlining, fe_opt, strategy optimiser are not modelled); Lean kernel for the path algebra; Lang.evalSrc trusted as the language's meaning.",
